@@ -443,6 +443,15 @@ func c02Inventory(c *Ctx, preds []*ssa.Function) {
 							case *ssa.MapUpdate:
 								// handled by the custom-level rule
 							case *ssa.DebugRef:
+							case *ssa.Call:
+								// maps.Clone / maps.Copy of the base level's map inside the trust policy package: seeding a custom level
+								if n := calleeName(x); (n == "maps.Clone" || n == "maps.Copy" || n == "builtin:len") && fnPkg(fn).Path() == modPath+"/verifier/trustpolicy" {
+									c.OK(key, ruleE, w.InstrPos(x))
+								} else if isFormattingCall(x) {
+									c.OK(key, ruleE, w.InstrPos(x))
+								} else {
+									c.Bad(key, ruleE, w.InstrPos(u), "unexpected use of the enforcement map: handed to "+n)
+								}
 							default:
 								c.Bad(key, ruleE, w.InstrPos(u), fmt.Sprintf("unexpected use of the enforcement map: %T", u))
 							}
@@ -828,7 +837,11 @@ func c02Plugin(c *Ctx, F *ssa.Function, getCall *ssa.Call) {
 		{Name: "metadata-error", What: "plugin.GetMetadata err == nil", Subs: []string{"EQ(call:invoke:pfw/plugin.VerifyPlugin.GetMetadata(call:invoke:ngo/plugin.Manager.Get(", "#err,nil)"}},
 		{Name: "version-semver", What: "the plugin version is valid semver", Subs: []string{"T(call:ngo/internal/semver.IsValid(call:invoke:pfw/plugin.VerifyPlugin.GetMetadata(", "#0.Version))"}},
 		{Name: "min-version", What: "semver.Compare(\"v\"+pluginVersion, \"v\"+minVersion) != -1 (plugin version first)",
-			Subs: []string{`NE(call:xsemver.Compare((const:"v" + call:invoke:pfw/plugin.VerifyPlugin.GetMetadata(`, `#0.Version),(const:"v" + `, `),const:-1)`}},
+			// Compare answers -1, 0 or +1: `!= -1`, `>= 0` and `> -1` are the same test
+			Alt: [][]string{
+				{`NE(call:xsemver.Compare((const:"v" + call:invoke:pfw/plugin.VerifyPlugin.GetMetadata(`, `#0.Version),(const:"v" + `, `),const:-1)`},
+				{`GE(call:xsemver.Compare((const:"v" + call:invoke:pfw/plugin.VerifyPlugin.GetMetadata(`, `#0.Version),(const:"v" + `, `),const:0)`},
+				{`GT(call:xsemver.Compare((const:"v" + call:invoke:pfw/plugin.VerifyPlugin.GetMetadata(`, `#0.Version),(const:"v" + `, `),const:-1)`}}},
 		{Name: "min-version-attr", What: "the minimum version attribute is absent or well-formed (error other than not-exist is fail-closed)",
 			Alt: [][]string{{"EQ(", "MinVersion", "#err,global:ngo/verifier.errExtendedAttributeNotExist)"}, {"EQ(", "MinVersion", "#err,nil)"}}},
 	}
